@@ -13,7 +13,7 @@
    untouched / independent / varied_invalid / valid_is_parent_copy are defined in the model file
    next to `reach` and `varied`. *)
 From Coq Require Import List ZArith Bool.
-From DV Require Import Model.C02_Variation Model.C02_Literal Proofs.C02_Variation Proofs.C02_Progress Proofs.C02_Literal.
+From DV Require Import Model.C02_Variation Model.C02_Literal Proofs.C02_Variation Proofs.C02_Progress Proofs.C02_Literal Proofs.C02_Trace.
 Import ListNotations.
 
 (* ---------------------------------------------------------------- varAnd *)
@@ -164,6 +164,69 @@ Theorem C02_varOr_total :
   exists s' off, @var_or G F T ltb leb add one mate_o mut_o lambda_ cxpb mutpb (start h0 d) pop = (s', inr off).
 Proof. exact or_total. Qed.
 Print Assumptions C02_varOr_total.
+
+(* ---------------------------------------------------------------- position by position; the extremes 0 and 1 *)
+(* varAnd: offspring i went through an operator, or it is the clone of population[i] and still has its
+   genotype and fitness values *)
+Theorem C02_varAnd_positional :
+  forall G F T ltb mate_o mut_o h0 pop, wf_heap h0 -> pop_ok h0 pop ->
+  (forall k x y, ret_distinct (ma_r1 (mate_o k x y)) (ma_r2 (mate_o k x y))) ->
+  forall cxpb mutpb d s' off,
+  @var_and G F T ltb mate_o mut_o cxpb mutpb (start h0 d) pop = (s', inr off) ->
+  Forall2 (fun p o => varied (lg s') o \/
+                      (In (EClone p o) (lg s') /\ geno (ind_at (hp s') o) = geno (ind_at h0 p)
+                       /\ fit_of (hp s') o = fit_of h0 p)) pop off.
+Proof. exact and_positional. Qed.
+Print Assumptions C02_varAnd_positional.
+
+(* no draw below cxpb or mutpb (in particular cxpb = mutpb = 0 with draws in [0,1)): no operator is
+   called and offspring i is an exact copy of population[i] *)
+Theorem C02_varAnd_probability_zero :
+  forall G F T ltb mate_o mut_o h0 pop, wf_heap h0 -> pop_ok h0 pop ->
+  (forall k x y, ret_distinct (ma_r1 (mate_o k x y)) (ma_r2 (mate_o k x y))) ->
+  forall cxpb mutpb d s' off,
+  (forall u, In (DRandom u) d -> ltb u cxpb = false) -> (forall u, In (DRandom u) d -> ltb u mutpb = false) ->
+  @var_and G F T ltb mate_o mut_o cxpb mutpb (start h0 d) pop = (s', inr off) ->
+  (forall o, ~ varied (lg s') o) /\
+  Forall2 (fun p o => In (EClone p o) (lg s') /\ geno (ind_at (hp s') o) = geno (ind_at h0 p)
+                      /\ fit_of (hp s') o = fit_of h0 p) pop off.
+Proof. exact and_never. Qed.
+Print Assumptions C02_varAnd_probability_zero.
+
+(* every draw below mutpb (in particular mutpb = 1): every offspring comes back invalid *)
+Theorem C02_varAnd_probability_one :
+  forall G F T ltb mate_o mut_o h0 pop, wf_heap h0 -> pop_ok h0 pop ->
+  (forall k x y, ret_distinct (ma_r1 (mate_o k x y)) (ma_r2 (mate_o k x y))) ->
+  forall cxpb mutpb d s' off,
+  (forall u, In (DRandom u) d -> ltb u mutpb = true) ->
+  @var_and G F T ltb mate_o mut_o cxpb mutpb (start h0 d) pop = (s', inr off) ->
+  forall o, In o off -> fit_of (hp s') o = None.
+Proof. exact and_always_mut. Qed.
+Print Assumptions C02_varAnd_probability_one.
+
+(* varOr with cxpb = mutpb = 0 -- the call on which the unrepaired code returned the parents themselves:
+   every offspring is an operator-free clone carrying a population member's genotype and fitness
+   (and, by C02_varOr_offspring_independent, a new object) *)
+Theorem C02_varOr_reproduction_only :
+  forall G F T ltb mate_o mut_o h0 pop, wf_heap h0 -> pop_ok h0 pop ->
+  forall leb add one lambda_ cxpb mutpb d s' off,
+  (forall u, In (DRandom u) d -> ltb u cxpb = false /\ ltb u (add cxpb mutpb) = false) ->
+  @var_or G F T ltb leb add one mate_o mut_o lambda_ cxpb mutpb (start h0 d) pop = (s', inr off) ->
+  (forall o, ~ varied (lg s') o) /\
+  forall o, In o off -> exists p, In p pop /\ In (EClone p o) (lg s') /\
+     geno (ind_at (hp s') o) = geno (ind_at h0 p) /\ fit_of (hp s') o = fit_of h0 p.
+Proof. exact or_reproduction_only. Qed.
+Print Assumptions C02_varOr_reproduction_only.
+
+(* varOr when every draw selects crossover or mutation (in particular cxpb + mutpb = 1): all invalid *)
+Theorem C02_varOr_all_varied :
+  forall G F T ltb mate_o mut_o h0 pop, wf_heap h0 -> pop_ok h0 pop ->
+  forall leb add one lambda_ cxpb mutpb d s' off,
+  (forall u, In (DRandom u) d -> ltb u cxpb = true \/ ltb u (add cxpb mutpb) = true) ->
+  @var_or G F T ltb leb add one mate_o mut_o lambda_ cxpb mutpb (start h0 d) pop = (s', inr off) ->
+  forall o, In o off -> fit_of (hp s') o = None.
+Proof. exact or_all_varied. Qed.
+Print Assumptions C02_varOr_all_varied.
 
 (* ---------------------------------------------------------------- the literal transcription *)
 (* the statement-by-statement, index-based transcription of the two functions (Model/C02_Literal.v:
